@@ -18,6 +18,24 @@ macro_rules! format {
 /// `registry()` of the same functions for native replay of counterexamples.
 #[macro_export]
 macro_rules! scenarios {
+    (unwind $u:literal; nul_free_topics; $($name:ident => $e:expr;)*) => {
+        #[cfg(kani)]
+        mod proofs {
+            use super::*;
+            $(
+                // precondition "topics are NUL-free" placed at the point of use (see memchr_absent)
+                #[kani::proof]
+                #[kani::unwind($u)]
+                #[kani::stub(core::slice::memchr::memchr, crate::store::harness::memchr_absent)]
+                fn $name() { $e }
+            )*
+        }
+        pub fn registry() -> Vec<(&'static str, fn())> {
+            let mut v: Vec<(&'static str, fn())> = Vec::new();
+            $( v.push((stringify!($name), || { $e })); )*
+            v
+        }
+    };
     (unwind $u:literal; $($name:ident => $e:expr;)*) => {
         #[cfg(kani)]
         mod proofs {
